@@ -43,6 +43,21 @@ type vkB struct {
 
 var vkBNames = []string{"a", "ab", "Cd", "a/b", "b_1"}
 
+// nine members: the 16-bit key bitmap is selected
+type vkC struct {
+	F0 int `json:"a"`
+	F1 int `json:"ab"`
+	F2 int `json:"Cd"`
+	F3 int `json:"a/b"`
+	F4 int `json:"b_1"`
+	F5 int `json:"c"`
+	F6 int `json:"dd"`
+	F7 int `json:"e"`
+	F8 int `json:"f"`
+}
+
+var vkCNames = []string{"a", "ab", "Cd", "a/b", "b_1", "c", "dd", "e", "f"}
+
 // the document is {"<key>":7} with a fully symbolic key literal body of K bytes
 // (raw bytes, simple escapes and \u escapes all arise from the free bytes).
 func H_C15_keys(t *verifrt.T) {
@@ -78,19 +93,26 @@ func H_C15_keys(t *verifrt.T) {
 	doc = append(doc, `":7}`...)
 	lit := append(append([]byte{'"'}, key...), '"')
 	tok := verifref.StringLiteral(lit)
-	var got [5]int
+	var got []int
 	var err error
 	names := vkANames
 	mapPath := true
-	if t.Choice("struct", 2) == 0 {
+	switch t.Choice("struct", 3) {
+	case 0:
 		var v vkA
 		err = Unmarshal(doc, &v)
-		got = [5]int{v.F0, v.F1, v.F2, v.F3, v.F4}
-	} else {
+		got = []int{v.F0, v.F1, v.F2, v.F3, v.F4}
+	case 1:
 		var v vkB
 		err = Unmarshal(doc, &v)
-		got = [5]int{v.F0, v.F1, v.F2, v.F3, v.F4}
+		got = []int{v.F0, v.F1, v.F2, v.F3, v.F4}
 		names = vkBNames
+		mapPath = false
+	case 2:
+		var v vkC
+		err = Unmarshal(doc, &v)
+		got = []int{v.F0, v.F1, v.F2, v.F3, v.F4, v.F5, v.F6, v.F7, v.F8}
+		names = vkCNames
 		mapPath = false
 	}
 	t.ObserveBool("ok", err == nil)
@@ -103,7 +125,7 @@ func H_C15_keys(t *verifrt.T) {
 	want := verifref.FieldFor(names, tok.Value)
 	t.Assert("valid-document-accepted", err == nil)
 	_ = mapPath
-	for i := 0; i < 5; i++ {
+	for i := 0; i < len(got); i++ {
 		if i == want {
 			t.Assert("selected-field-assigned", got[i] == 7)
 		} else {
@@ -150,9 +172,7 @@ func H_C07_array_neighbours(t *verifrt.T) {
 	err := Unmarshal(doc, &v)
 	t.Assert("accepted", err == nil)
 	t.Assert("field-before-untouched", v.Before == 0xdeadbeef)
-	kf := verifrt.And(n < 3, v.After != [5]uint8{0xa1, 0xa2, 0xa3, 0xa4, 0xa5})
-	t.Known("D12-array-zero-fill-overruns-into-next-field", kf)
-	t.Assert("field-after-untouched", verifrt.Or(kf, v.After == [5]uint8{0xa1, 0xa2, 0xa3, 0xa4, 0xa5}))
+	t.Assert("field-after-untouched", v.After == [5]uint8{0xa1, 0xa2, 0xa3, 0xa4, 0xa5})
 	t.Assert("tail-untouched", v.Tail == 0x1122334455667788)
 	t.Assert("slice-header-untouched", v.S == nil)
 	if n == 5 {
